@@ -158,6 +158,7 @@ def sequence_part(res, pid="C03"):
         res.violation({"property": pid, "kind": "history", "case": bad[0], "others": [b["schedule"][:200] for b in bad[1:4]],
                        "predicate": {"C18": "a client call completes after a bounded amount of work whatever the daemon publishes",
                                      "C02": "every record a reader obtains is, field for field, one record the daemon published in full (here: the one just published, no update in flight)",
+                                     "C11": "as seen by any conforming reader the generation is different after each completed update from what it was before (an attached reader obtains the new record)",
                                      "C04": "clients see the restarted daemon's publications without reopening anything; new clients can attach after the first publication"}.get(
                                          pid, "if no update is in flight while a call executes, the call returns the most recently completed publication"),
                        "how_to_replay": "./check C03"})
